@@ -5,6 +5,7 @@
 set -u
 V=/verif
 REPO=${VERIF_REPO:-/repo}
+BLD=${VERIF_BUILD:-$V/build}      # scratch runs against other trees use their own build directory
 cd $V || exit 2
 # sanitizer options are compiled into the checkers (__asan_default_options); do not inherit foreign ones
 unset ASAN_OPTIONS UBSAN_OPTIONS
@@ -29,7 +30,7 @@ SANFLAGS="-fsanitize=address,undefined -fno-sanitize=pointer-overflow -fno-sanit
 
 # build <driver> : compiles the library from $REPO and the driver into build/<driver>/
 build() {
-  local drv=$1 B=$V/build/$1
+  local drv=$1 B=$BLD/$1
   mkdir -p $B
   local CF="-O1 -g -DBINSON_PARSER_WITH_PRINT -I$REPO/include"
   local SANFLAGS="$SANFLAGS"
@@ -43,7 +44,7 @@ build() {
 
 # C15: the C++ wrapper, built twice (automatic variables pre-filled with zero / with the 0xFE pattern) + a valgrind pass
 build_cxx() {
-  local variant=$1 B=$V/build/cxx
+  local variant=$1 B=$BLD/cxx
   mkdir -p $B
   local CF="-O1 -g -DBINSON_PARSER_WITH_PRINT -I$REPO/include"
   gcc -std=c99 $CF $SANFLAGS -c $REPO/src/binson_parser.c -o $B/binson_parser.o || return 2
@@ -53,18 +54,18 @@ build_cxx() {
       $B/binson_$variant.o $B/binson_parser.o $B/binson_writer.o -o $B/cxx_$variant || return 2
 }
 build_cxx_vg() {
-  local B=$V/build/cxx CF="-O1 -g -DBINSON_PARSER_WITH_PRINT -I$REPO/include"
+  local B=$BLD/cxx CF="-O1 -g -DBINSON_PARSER_WITH_PRINT -I$REPO/include"
   gcc -std=c99 $CF -c $REPO/src/binson_parser.c -o $B/vg_parser.o && gcc -std=c99 $CF -c $REPO/src/binson_writer.c -o $B/vg_writer.o &&
   g++ -std=c++11 $CF -c $REPO/src/binson.cpp -o $B/vg_binson.o &&
   g++ -std=c++11 -Wno-write-strings $CF -DVF_ROOT=\"$V\" $V/checks/cxx.cpp $B/vg_binson.o $B/vg_parser.o $B/vg_writer.o -o $B/cxx_vg || return 2
 }
 run_cxx() {
-  local tier=$1 B=$V/build/cxx
+  local tier=$1 B=$BLD/cxx
   build_cxx pattern && build_cxx zero && build_cxx_vg || { echo "HARNESS-ERROR: build failed"; exit 2; }
   VERIF_VARIANT=pattern VERIF_EVIDENCE_OUT=$B/evidence.pattern.json $B/cxx_pattern --prop C15 --tier $tier > $B/pattern.out 2>&1
   local rc=$?
   grep -E "^(VIOLATION|KNOWN-FINDING|HARNESS-ERROR|  signature)" $B/pattern.out
-  if [ $rc -ne 0 ]; then cp $B/evidence.pattern.json $V/evidence/C15.json 2>/dev/null; tail -1 $B/pattern.out; exit $rc; fi
+  if [ $rc -ne 0 ]; then cp $B/evidence.pattern.json ${VERIF_EVIDENCE_DIR:-$V/evidence}/C15.json 2>/dev/null; tail -1 $B/pattern.out; exit $rc; fi
   # uninitialised-value oracle on the inputs that init rejects
   valgrind -q --error-exitcode=9 --log-file=$B/valgrind.log $B/cxx_vg --valgrind-subset > $B/valgrind.out 2>&1
   if [ $? -eq 9 ]; then
@@ -79,7 +80,7 @@ run_cxx() {
 
 # C17: the library as shared objects per compiler / optimisation level; the harness dlopens them
 run_footprint() {
-  local tier=$1 B=$V/build/footprint
+  local tier=$1 B=$BLD/footprint
   mkdir -p $B $V/replays/C17
   local libs=""
   for cc in gcc clang; do for opt in O0 O2 Os; do
@@ -114,12 +115,12 @@ if [ "${1:-}" = replay ]; then
   fi
   if [ "$drv" = cxx ]; then
     build_cxx zero || { echo "HARNESS-ERROR: build failed"; exit 2; }
-    $V/build/cxx/cxx_zero --prop C15 --replay "$f"; rc=$?
+    $BLD/cxx/cxx_zero --prop C15 --replay "$f"; rc=$?
     if [ $rc = 3 ]; then echo "VIOLATION property=$prop replay=$f"; exit 1; fi
     exit $rc
   fi
   build $drv || { echo "HARNESS-ERROR: build failed"; exit 2; }
-  $V/build/$drv/$drv --prop $prop --replay "$f"
+  $BLD/$drv/$drv --prop $prop --replay "$f"
   rc=$?
   # exit 3 = the code under test died (signal / sanitizer / hang) while replaying: the violation reproduces
   if [ $rc = 3 ]; then echo "VIOLATION property=$prop replay=$f"; exit 1; fi
@@ -128,7 +129,7 @@ fi
 
 if [ "${1:-}" = setup ]; then
   # nothing is cached between runs: every check rebuilds the library and its driver from $REPO. Setup only proves the toolchain works.
-  mkdir -p $V/build $V/evidence $V/replays
+  mkdir -p $BLD $V/evidence $V/replays
   for d in nav api verify stream decode writer text; do build $d || { echo "setup: building $d failed"; exit 2; }; done
   echo "setup ok"; exit 0
 fi
@@ -139,6 +140,6 @@ drv=$(driver_of $prop)
 mkdir -p $V/evidence
 if [ "$drv" = cxx ]; then run_cxx $tier; fi
 if [ "$drv" = footprint ]; then run_footprint $tier; fi
-if [ "$drv" = xbuild ]; then exec python3 $V/tools/xbuild.py $REPO $V $tier; fi
+if [ "$drv" = xbuild ]; then exec python3 $V/tools/xbuild.py $REPO $V $tier $BLD; fi
 build $drv || { echo "HARNESS-ERROR: build failed"; exit 2; }
-exec $V/build/$drv/$drv --prop $prop --tier $tier
+exec $BLD/$drv/$drv --prop $prop --tier $tier
